@@ -168,21 +168,22 @@ def behaviour(match_fn, ps=None):
 REJECT = dumps([A("raise"), A("ASTPatternDefinitionError")])
 
 
-def observe_pattern(text: str, probes: bool, pre: tuple = (), ps=None, cfg: str = "plain"):
+def observe_pattern(text: str, probes: bool, pre: tuple = (), ps=None, cfg: str = "plain", keep_cache: bool = False):
     """canonical outcome per entry point; `pre`: texts compiled (and cached) just before; `cfg`: logging / tracing
     configuration under which everything runs (must not matter)"""
     with zoo_c08.configured(cfg):
-        return _observe_pattern(text, probes, pre, ps or DEFAULT)
+        return _observe_pattern(text, probes, pre, ps or DEFAULT, keep_cache)
 
 
-def _observe_pattern(text, probes, pre, ps):
+def _observe_pattern(text, probes, pre, ps, keep_cache=False):
     outs = {}
     try:
         ok, _ = validate_pattern(text)
         outs["validate"] = "ok" if ok else REJECT
     except Exception as e:  # noqa
         outs["validate"] = f"OTHER({type(e).__name__})"
-    pm._MATCHER_CACHE.clear()
+    if not keep_cache:      # keep_cache: whatever earlier compilations of this very text left behind stays
+        pm._MATCHER_CACHE.clear()
     for t in pre:
         NodeMatcher.from_pattern(t)
     for key in ("cold", "cached"):
@@ -217,7 +218,8 @@ _FLOAT_FIELD = re.compile(r"@\s*fl(?![A-Za-z0-9_])")
 _SEQ_ON_STR = re.compile(r"@\s*(?:" + _STR_FIELDS + r")\s*=\s*\[(?!\s*\])")
 
 
-def pattern_case(text: str, kind: str, expect_accept: bool | None = None, pre: tuple = (), ps=None, cfg: str = "plain"):
+def pattern_case(text: str, kind: str, expect_accept: bool | None = None, pre: tuple = (), ps=None, cfg: str = "plain",
+                 keep_cache: bool = False):
     ps = ps or DEFAULT
     qs = quoted(text)
     probes = all(rx_supported(c) for c in qs)
@@ -228,7 +230,7 @@ def pattern_case(text: str, kind: str, expect_accept: bool | None = None, pre: t
         probes = False      # C08 don't-care point: a regex against a node- or tuple-valued field / sequence element
     if "$" in bare and _FLOAT_FIELD.search(bare):
         probes = False      # outside the value model: a float compared with a non-float by a $variable (0.0 == 0)
-    outs = observe_pattern(text, probes, pre, ps, cfg)
+    outs = observe_pattern(text, probes, pre, ps, cfg, keep_cache)
     real = outs["cold"]
     oracle = None
     sig = "pattern|model"
@@ -342,7 +344,7 @@ def dyn_class_cases(rng, cfg):
             c.sig = "xpath|accept"
         yield c
     for t in before_p + ptexts[2:]:
-        c, _ = pattern_case(t, "pattern_after_class", expect_accept=True, ps=ps, cfg=cfg)
+        c, _ = pattern_case(t, "pattern_after_class", expect_accept=True, ps=ps, cfg=cfg, keep_cache=t in before_p)
         c.desc += f" (class {name}(Leaf) defined" + (" after this text was first compiled)" if t in before_p else ")")
         yield c
 
@@ -536,12 +538,30 @@ BAD_RX = ["(unclosed", "a)", "[a", "*a", "a**", "+", "(?P<x>a)(?P<x>b)", "a{2,1}
 BAD_REGEX_P = ['(Leaf @s="(unclosed")', '(Leaf @v="a)" -> k)', '(Tup @items=[(Leaf @s="[a") *])', '(* @s="*a" @v="1")']
 
 
+# variable uses placed BEFORE / INSIDE / AFTER the capture of the same name, at every structural place a capture can
+# stand (trailing capture of the very field whose value uses the variable, item capture, tail capture, an earlier or
+# later field, an inner / outer pattern): "variables follow their captures" in text order, whatever the nesting
+VAR_ORDER_P = [
+    '(Leaf @v=$x -> x)', '(Leaf @s=$x -> x)', '(Bin @left=(Leaf @v=$x) -> x)', '(Un @arg=(Leaf @s=$x) -> x)',
+    '(Tup @items=[$x] -> x)', '(Tup @items=[$x -> x])', '(Tup @items=[$x (Leaf) -> x])', '(Tup @items=[(Leaf) -> x $x])',
+    '(Tup @items=[$x * -> x])', '(Tup @items=[(Leaf) $x *] -> x)', '(Tup @items=[(Leaf) -> x *] -> y @items=$y)',
+    '(Bin @left -> x @right=$x)', '(Bin @left=$x @right -> x)', '(Bin @left=(Leaf @v -> x) @right=$x)',
+    '(Bin @left=(Leaf @v=$x @s -> x))', '(Bin @left=(Leaf @s -> x @v=$x))', '(Bin @left=(Leaf @v=$x) @right=(Leaf @v -> x))',
+    '(Bin @left=(Leaf @v -> x) -> y @right=$y)', '(Bin @left=(Leaf @v=$y) -> y @right=$y)',
+    '(Un @arg=(Un @arg=(Leaf @v=$x) -> x))', '(Un @arg=(Un @arg=(Leaf @v=$x)) -> x)', '(Un @arg=(Un @arg -> x @arg=$x))',
+    '(* @v=$x -> x)', '(* @v -> x @s=$x)', '(Tup @items=[(Leaf @v=$x) -> x])', '(Tup @items=[(Leaf @v -> x) $x])',
+    '(Tup @items=[(Leaf @v=$x -> x)])', '(Tup @items=[(Leaf) -> a (Leaf @v=$b) -> b *])',
+]
+
+
 def cases(rng: random.Random, tier: str):
     for cfg in zoo_c08.CONFIGS:
         for t in FIXED_P + BAD_REGEX_P:
             yield pattern_case(t, "pattern_fixed", cfg=cfg)[0]
         for t in FIXED_X:
             yield xpath_case(t, "xpath_fixed", cfg=cfg)[0]
+        for t in VAR_ORDER_P:
+            yield pattern_case(t, "pattern_var_order", cfg=cfg)[0]
     n = 330 if tier == "quick" else 12000
     for it in range(n):
         # the whole iteration runs under one logging / tracing configuration (which must not matter)
